@@ -492,3 +492,222 @@ pub proof fn lemma_analysis_gives_a_header<S, B>(pre: &Call<S, B>, post: &Call<S
     }
 }
 ''')
+
+# ------------------------------------------------------------------ Call<WithBody>
+RAW('''
+/// C03 / C04: the body branch of Call<WithBody>::write
+#[verifier::prophetic]
+pub open spec fn post_write_body<B>(pre: &Call<WithBody, B>, post: &Call<WithBody, B>, input: Seq<u8>, out_len: nat, emitted_of: spec_fn(nat) -> Seq<u8>, r: Result<(usize, usize), Error>) -> bool {
+    let wr = pre.state.writer;
+    if input.len() > 0 && wr.ended {
+        // C03/C04: refused after the body is finished
+        r == Err::<(usize, usize), Error>(Error::BodyContentAfterFinish) && *post == *pre
+    } else if wr.mode is Sized && input.len() > wr.mode->Sized_0 {
+        // C04: refused when more than the remaining bytes are offered
+        r == Err::<(usize, usize), Error>(Error::BodyLargerThanContentLength) && *post == *pre
+    } else {
+        &&& r is Ok && post.request == pre.request && post.analyzed == pre.analyzed && post.state.phase == pre.state.phase && post.state.reader == pre.state.reader
+        &&& post.state.skip_method_body_check == pre.state.skip_method_body_check && post.state.stop_on_chunk_boundary == pre.state.stop_on_chunk_boundary
+        &&& r->Ok_0.0 <= input.len() && r->Ok_0.1 <= out_len
+        &&& (wr.mode is Sized ==> sized_step(wr, post.state.writer, input, out_len, emitted_of(r->Ok_0.1 as nat), r->Ok_0.0 as nat, r->Ok_0.1 as nat))
+        &&& (wr.mode is Chunked ==> chunked_step(wr, post.state.writer, input, out_len, emitted_of(r->Ok_0.1 as nat), r->Ok_0.0 as nat, r->Ok_0.1 as nat))
+    }
+}
+/// C04: min(input, space, remaining) bytes copied verbatim, counted as consumed and produced; exact countdown
+pub open spec fn sized_step(w0: BodyWriter, w1: BodyWriter, input: Seq<u8>, space: nat, emitted: Seq<u8>, consumed: nat, produced: nat) -> bool {
+    let left = w0.mode->Sized_0;
+    let n = min3(input.len() as int, space as int, left as int);
+    &&& consumed == n && produced == n && emitted == input.subrange(0, n)
+    &&& w1.mode == SenderMode::Sized((left - n) as u64) && w1.ended == (w0.ended || left - n == 0)
+}
+/// C03: data writes emit complete non-empty chunks of exactly the consumed bytes; the terminator only on an empty write, once
+pub open spec fn chunked_step(w0: BodyWriter, w1: BodyWriter, input: Seq<u8>, space: nat, emitted: Seq<u8>, consumed: nat, produced: nat) -> bool {
+    &&& w1.mode is Chunked && emitted.len() == produced
+    &&& if input.len() > 0 {
+            w1.ended == w0.ended && consumed == crate::body::cc(input.len(), space) && crate::body::is_chunking(emitted, input, consumed)
+        } else {
+            consumed == 0 && (if w0.ended { produced == 0 && w1.ended } else if space >= 5 { emitted =~= crate::body::term_bytes() && w1.ended } else { produced == 0 && !w1.ended })
+        }
+}
+''')
+IMPL('impl<B> Call<WithBody, B>')
+FN('write', props=['C02', 'C03', 'C04', 'C17', 'C18', 'C19', 'C01', 'C16'], ret='r',
+   requires=[
+       ('aux.Call.write.wf', 'old(self).wf()'),
+       ('aux.Call.write.sending', 'old(self).state.phase is SendLine || old(self).state.phase is SendHeaders || old(self).state.phase is SendBody'),
+       ('C02.quantifier_request_names_its_host', 'old(self).has_host_source()'),
+       ('aux.Call.write.phase_ok', 'if old(self).analyzed { phase_ok(&old(self).request, old(self).state.phase) } else { old(self).state.phase is SendLine }'),
+       ('aux.Call.write.body_has_mode', '!(old(self).state.writer.mode is None)'),
+   ],
+   ensures=[
+       ('aux.Call.write.frame', '''final(output).len() == old(output).len() && final(self).wf() && (final(self).analyzed ==> phase_ok(&final(self).request, final(self).state.phase)) && final(self).has_host_source()
+            && (final(self).analyzed ==> !(final(self).state.writer.mode is None))'''),
+       ('C02.head_bytes', '''(!old(self).analyzed || old(self).state.phase is SendLine || old(self).state.phase is SendHeaders) ==> match r {
+            Ok(p) => p.0 == 0 && p.1 <= old(output).len() && post_write_head(old(self), final(self), final(output)@.subrange(0, p.1 as int), true, None),
+            Err(e) => post_write_head(old(self), final(self), Seq::<u8>::empty(), false, Some(e)),
+        }'''),
+       ('C17.rejected_before_any_byte', '(!old(self).analyzed) && r is Err && !(r->Err_0 == Error::OutputOverflow) ==> *final(self) == *old(self) && final(output)@ == old(output)@'),
+       ('C03/C04.body_bytes', '''old(self).analyzed && old(self).state.phase is SendBody ==>
+            post_write_body(old(self), final(self), input@, old(output).len() as nat, |n: nat| final(output)@.subrange(0, n as int), r)'''),
+   ],
+   head='proof { axiom_slice_len(input); }',
+   after=[('self.analyze_request()?;', '''proof {
+            lemma_analysis_gives_a_header(old(self), self);
+            lemma_analysis_gives_body_mode(old(self), self);
+        }'''),
+          ('let output_used = w.len();', '''proof {
+            assert(w.out().subrange(0, w.out().len() as int) =~= w.out());
+            assert(w.fin().subrange(0, output_used as int) =~= w.out());
+        }''')],
+   )
+FN('consume_direct_write', props=['C04'], ret='r',
+   requires=[('aux.consume_direct_write.wf', 'old(self).wf()')],
+   ensures=[('C04.direct_write_accounting', '''match old(self).state.writer.mode {
+            SenderMode::Sized(left) => if amount as u64 > left { r == Err::<(), Error>(Error::BodyLargerThanContentLength) && *final(self) == *old(self) }
+                else { r is Ok && final(self).state.writer.mode == SenderMode::Sized((left - amount) as u64) && final(self).state.writer.ended == (old(self).state.writer.ended || left == amount as u64)
+                       && final(self).request == old(self).request && final(self).analyzed == old(self).analyzed && final(self).state.phase == old(self).state.phase && final(self).state.reader == old(self).state.reader && final(self).wf() },
+            _ => r == Err::<(), Error>(Error::BodyIsChunked) && *final(self) == *old(self) }''')])
+FN('is_prelude', props=['C02', 'C09'], ret='r', ensures=[('aux.WithBody.is_prelude', 'r == (self.state.phase is SendLine || self.state.phase is SendHeaders)')])
+FN('is_body', props=['C02', 'C09'], ret='r', ensures=[('aux.WithBody.is_body', 'r == (self.state.phase is SendBody)')])
+FN('is_chunked', props=['C03', 'C18'], ret='r', ensures=[('aux.WithBody.is_chunked', 'r == (self.state.writer.mode is Chunked)')])
+FN('is_finished', props=['C03', 'C04', 'C09'], ret='r', ensures=[('C03/C04.finished_flag', 'r == self.state.writer.ended')])
+FN('into_receive', props=['C09'], ret='r',
+   ensures=[('C09.into_receive_iff_body_finished', '''if self.state.writer.ended {
+                r is Ok && r->Ok_0.request == self.request && r->Ok_0.analyzed == self.analyzed && r->Ok_0.state.phase == Phase::RecvResponse
+                && r->Ok_0.state.writer == self.state.writer && r->Ok_0.state.reader == self.state.reader
+                && r->Ok_0.state.skip_method_body_check == self.state.skip_method_body_check && r->Ok_0.state.stop_on_chunk_boundary == self.state.stop_on_chunk_boundary
+            } else { r == Err::<Call<RecvResponse, B>, Error>(Error::UnfinishedRequest) }''')])
+FN('into_receive_skip_body', props=['C09', 'C11'], ret='r',
+   ensures=[('C11.refused_body_is_skipped', '''r.request == self.request && r.analyzed == self.analyzed && r.state.phase == Phase::RecvResponse
+                && r.state.writer == self.state.writer && r.state.reader == self.state.reader
+                && r.state.skip_method_body_check == self.state.skip_method_body_check && r.state.stop_on_chunk_boundary == self.state.stop_on_chunk_boundary''')])
+END()
+
+PROOF('lemma_analysis_gives_body_mode', ['C02', 'C09', 'C17'], '''
+/// a call that starts with a body writer (with_body constructor / send_body_despite_method) still has one after analysis
+pub proof fn lemma_analysis_gives_body_mode<S, B>(pre: &Call<S, B>, post: &Call<S, B>)
+    requires Call::<S, B>::post_analyze(pre, post, Ok(())), !pre.analyzed ==> !(pre.state.writer.mode is None), pre.analyzed ==> !(pre.state.writer.mode is None)
+    ensures !(post.state.writer.mode is None)
+{}
+''')
+
+# ------------------------------------------------------------------ Call<RecvResponse>
+RAW('''
+use crate::httparse::{Outcome, Parsed, PField, parse_response};
+use crate::parser::{build_fields, nonempty_prefix, response_is, spec_try_parse_response, spec_try_parse_partial};
+use crate::http::{has_name, hdr_multiset_order};
+use crate::client::amended::is_text;
+
+/// value of the first field of that name, if it is visible ASCII (`HeaderValue::to_str`)
+pub open spec fn text_first(e: Seq<Hdr>, name: Seq<u8>) -> Option<Seq<u8>> {
+    match first_value(e, name) { Some(v) => if is_text(v) { Some(v) } else { None }, None => None }
+}
+/// C06: the body framing of a response, decided from ITS OWN status line and fields
+pub open spec fn response_framing(m: Method, resp: &Response<()>) -> Option<Framing> {
+    let e = resp.spec_headers().entries();
+    framing(m, resp.spec_status().0, resp.spec_version() == Version::HTTP_10, text_first(e, lit("content-length")), text_first(e, lit("transfer-encoding")))
+}
+/// C05 (F6): the deliberate work-around: a 3xx head cut anywhere after a complete Location line is accepted as complete
+pub open spec fn partial_redirect_hack(p: Parsed) -> bool {
+    &&& p.version is Some && p.version->Some_0 <= 1 && p.code is Some && 300 <= p.code->Some_0 <= 399
+    &&& build_fields(p.fields, nonempty_prefix(p.fields, p.fields.len() as int)) matches Ok(hs) && by_name(hs, lit("location")).len() > 0
+}
+/// the state of the call after try_response returned `resp`
+pub open spec fn post_response<B>(pre: &Call<RecvResponse, B>, post: &Call<RecvResponse, B>, resp: &Response<()>) -> bool {
+    &&& post.request == pre.request && post.analyzed == pre.analyzed && post.state.phase == pre.state.phase && post.state.writer == pre.state.writer
+    &&& post.state.skip_method_body_check == pre.state.skip_method_body_check && post.state.stop_on_chunk_boundary == pre.state.stop_on_chunk_boundary
+    &&& if resp.spec_status().0 == 100 {
+            // C11: an interim 100 is handed through, it does not decide the body framing
+            post.state.reader == pre.state.reader && resp.spec_headers().entries().len() == 0
+        } else {
+            // C06: the reader is set according to the message-body-length rules
+            response_framing(pre.request.request.spec_method(), resp) matches Some(f) && post.state.reader is Some && reader_framing(post.state.reader->Some_0) == f
+                && (post.state.reader->Some_0 is Chunked ==> post.state.reader->Some_0->Chunked_0 == crate::chunk::Dechunker::Size)
+        }
+}
+#[verifier::external_body]
+pub proof fn axiom_literals2()
+    ensures
+        lower(lit("content-length")) == lit("content-length"), lower(lit("transfer-encoding")) == lit("transfer-encoding"),
+        lower(lit("location")) == lit("location"), lower(lit("connection")) == lit("connection"),
+        lit("connection") != lit("location") && lit("connection") != lit("content-length") && lit("connection") != lit("transfer-encoding"),
+{}
+''')
+IMPL('impl<B> Call<RecvResponse, B>')
+FN('try_response', props=['C05', 'C06', 'C11', 'C12', 'C01'], ret='r',
+   requires=[('aux.try_response.wf', 'old(self).wf()')],
+   ensures=[
+       ('aux.try_response.wf', 'final(self).wf()'),
+       ('C12.no_state_change_on_error_or_need_more', '(r is Err || r == Ok::<Option<(usize, Response<()>)>, Error>(None)) ==> *final(self) == *old(self)'),
+       ('C12.counts', 'r is Ok && r->Ok_0 is Some ==> r->Ok_0->Some_0.0 <= input.len()'),
+       ('C05.complete_head_exact', '''parse_response(input@, MAX_RESPONSE_HEADERS as nat) matches Outcome::Complete(n, p) ==> ({
+            let valid = p.version is Some && p.version->Some_0 <= 1 && p.code is Some && 100 <= p.code->Some_0 <= 999 && build_fields(p.fields, p.fields.len() as int) is Ok;
+            let hs = build_fields(p.fields, p.fields.len() as int)->Ok_0;
+            &&& (r is Ok ==> valid && r->Ok_0 is Some && r->Ok_0->Some_0.0 == n && response_is(r->Ok_0->Some_0.1, p, hs))
+            &&& (valid && p.code->Some_0 == 100 ==> (r is Ok <==> hs.len() == 0))
+            &&& (valid && p.code->Some_0 != 100 ==> (r is Ok <==> framing(old(self).request.request.spec_method(), p.code->Some_0, p.version->Some_0 == 0,
+                        text_first(hs, lit("content-length")), text_first(hs, lit("transfer-encoding"))) is Some))
+        })'''),
+       ('C06.reader_set_by_the_rules', 'r is Ok && r->Ok_0 is Some ==> post_response(old(self), final(self), &r->Ok_0->Some_0.1)'),
+       ('C05.need_more_data.not_redirect_with_location', 'parse_response(input@, MAX_RESPONSE_HEADERS as nat) matches Outcome::Partial(p) && !partial_redirect_hack(p) ==> (r is Err || r == Ok::<Option<(usize, Response<()>)>, Error>(None))'),
+       ('C05.need_more_data.well_formed_prefix_never_fails', '''parse_response(input@, MAX_RESPONSE_HEADERS as nat) matches Outcome::Partial(p) && !partial_redirect_hack(p) && (p.code matches Some(c) ==> c >= 100)
+            && (forall|i: int| 0 <= i < p.fields.len() ==> (#[trigger] p.fields[i]).name.len() < 65536) ==> r == Ok::<Option<(usize, Response<()>)>, Error>(None)'''),
+       ('C05.need_more_data.redirect_with_location', 'parse_response(input@, MAX_RESPONSE_HEADERS as nat) matches Outcome::Partial(p) && partial_redirect_hack(p) ==> r == Ok::<Option<(usize, Response<()>)>, Error>(None)'),
+       ('aux.try_response.partial_redirect_is_marked_close', '''parse_response(input@, MAX_RESPONSE_HEADERS as nat) matches Outcome::Partial(p) && partial_redirect_hack(p) && r is Ok ==>
+            r->Ok_0 is Some && r->Ok_0->Some_0.0 == input.len() && crate::http::has_field(r->Ok_0->Some_0.1.spec_headers().entries(), lit("connection"), lit("close"))'''),
+   ],
+   head='broadcast use crate::httparse::axiom_outcome_ok; proof { axiom_literals(); axiom_literals2(); axiom_slice_len(input); }',
+   rewrites=[
+       ('N5', '''let header_lookup = |name: &str| {
+            if let Some(header) = response.headers().get(name) {
+                return header.to_str().ok();
+            }
+            None
+        };''', '''let header_lookup = |name: &str| -> (o: Option<&str>)
+            ensures crate::body::opt_bytes(o) == text_first(response.spec_headers().entries(), lower(str_bytes(name)))
+        {
+            if let Some(header) = response.headers().get(name) {
+                return header.to_str().ok();
+            }
+            None
+        };'''),
+   ],
+   before=[('if let Some(mut r) = try_parse_partial_response', '''proof {
+                    let o = parse_response(input@, MAX_RESPONSE_HEADERS as nat);
+                    if o is Partial && (forall|i: int| 0 <= i < o->Partial_0.fields.len() ==> (#[trigger] o->Partial_0.fields[i]).name.len() < 65536) {
+                        crate::parser::lemma_nonempty_prefix_le(o->Partial_0.fields, o->Partial_0.fields.len() as int);
+                        crate::parser::lemma_build_fields_ok(o->Partial_0.fields, nonempty_prefix(o->Partial_0.fields, o->Partial_0.fields.len() as int));
+                    }
+                }'''),
+           ('let recv_body_mode =', '''proof {
+            let o = parse_response(input@, MAX_RESPONSE_HEADERS as nat);
+            if o is Complete {
+                let hs = build_fields(o->Complete_1.fields, o->Complete_1.fields.len() as int)->Ok_0;
+                let en = response.spec_headers().entries();
+                crate::http::lemma_first_value_by_name(en, lit("content-length")); crate::http::lemma_first_value_by_name(hs, lit("content-length"));
+                crate::http::lemma_first_value_by_name(en, lit("transfer-encoding")); crate::http::lemma_first_value_by_name(hs, lit("transfer-encoding"));
+            }
+            let e = response.spec_headers().entries();
+            let h0 = |n: Seq<u8>| text_first(e, lower(n));
+            assert(crate::body::lookup_is(&header_lookup, h0));
+        }''')],
+   after=[
+       ('r.status().is_redirection() && r.headers().contains_key("location");', '''proof {
+                        let p = parse_response(input@, MAX_RESPONSE_HEADERS as nat)->Partial_0;
+                        let hs = build_fields(p.fields, nonempty_prefix(p.fields, p.fields.len() as int))->Ok_0;
+                        crate::http::lemma_has_name_by_name(r.spec_headers().entries(), lit("location"));
+                    }'''),
+   ],
+   )
+FN('is_finished', props=['C09', 'C05'], ret='r', ensures=[('aux.RecvResponse.is_finished', 'r == (self.state.reader is Some)')])
+FN('into_body', props=['C06', 'C09'], ret='r',
+   ensures=[('C06.into_body', '''match self.state.reader {
+            None => r == Err::<Option<Call<RecvBody, B>>, Error>(Error::IncompleteResponse),
+            Some(BodyReader::NoBody) => r is Ok && r->Ok_0 is None,
+            Some(rd) => r is Ok && r->Ok_0 is Some && r->Ok_0->Some_0.state.reader == Some(rd) && r->Ok_0->Some_0.state.phase == Phase::RecvBody && r->Ok_0->Some_0.request == self.request }''')])
+FN('need_response_body', props=['C06', 'C09'], ret='r',
+   ensures=[('C06.need_body', 'r == !(self.state.reader == Some(BodyReader::NoBody) || self.state.reader == Some(BodyReader::LengthDelimited(0)))')])
+FN('do_into_body', props=['C09'], ret='r',
+   ensures=[('aux.do_into_body', '''r.request == self.request && r.analyzed == self.analyzed && r.state.phase == Phase::RecvBody && r.state.writer == self.state.writer && r.state.reader == self.state.reader
+            && r.state.skip_method_body_check == self.state.skip_method_body_check && r.state.stop_on_chunk_boundary == self.state.stop_on_chunk_boundary''')])
+END()
